@@ -364,6 +364,11 @@ class Proj:
                 x = x.parent
             if hours is None and self.default_hours is not None:
                 hours = self.default_hours        # reference semantics: hours written in the project header are the project default
+            y = r
+            while y is not None and not y.tz:
+                y = y.parent
+            if hours is None and y is not None:
+                hours = std_hours(540, 1020)      # ... and the built-in default (Mon-Fri 09:00-17:00) is worked at the resource's local time (C02)
             if hours is not None:
                 H = [[[a, b] for a, b in hours.get(d, [])] for d in range(7)]
                 cal = "hours"
@@ -384,9 +389,18 @@ class Proj:
             # ... and so do the leaves declared inside the shift the resource takes its working time from
             for a, b in self.shift_leaves.get(via_shift, []) if via_shift else []:
                 lv.append([self.secs(a), self.secs(b) if b else self.secs(a) + 86400])
+            # reference semantics: efficiency and time zone are inherited from the nearest enclosing group that declares one
+            x, eff, tzn = r, Fraction(1), ""
+            while x is not None and eff == 1:
+                eff = x.eff
+                x = x.parent
+            x = r
+            while x is not None and not tzn:
+                tzn = x.tz or ""
+                x = x.parent
             R.append({"name": self.full(r), "parent": rix[id(r.parent)] if r.parent else 0, "leaf": not r.kids,
-                      "effN": r.eff.numerator, "effD": r.eff.denominator, "cal": cal, "hours": H, "leaves": lv,
-                      "tzname": r.tz or "",
+                      "effN": eff.numerator, "effD": eff.denominator, "cal": cal, "hours": H, "leaves": lv,
+                      "tzname": tzn,
                       "limits": [{"kind": k, "val": int(Fraction(v, self.G)), "valSec": int(v), "res": 0, "periods": 0}
                                  for k, v in r.limits]})
         vac = [[self.secs(a), self.secs(b) if b else self.secs(a) + 86400] for a, b in self.vac]
@@ -605,7 +619,7 @@ def calendars(rng, n, zones=None):
                     sl.append((s0, s0 + timedelta(days=rng.randint(1, 3)) if rng.random() < 0.6 else None))
                 shift = p.add_shift("s%d" % k, rng.choice([std_hours(540, 1080), {d: [(1320, 360)] for d in range(5)},
                                                            {d: [(0, 480), (960, 1440)] for d in range(7)}]), leaves=sl)
-            tz = rng.choice(zones) if (hours is not None or shift) and rng.random() < 0.6 else None
+            tz = rng.choice(zones) if rng.random() < (0.6 if (hours is not None or shift) else 0.3) else None      # also with default hours: worked at local time
             parent = None
             if rng.random() < 0.25:
                 # a group that declares hours (inline or through a shift); its people inherit them unless they declare their own
@@ -1155,6 +1169,8 @@ def group_matrix(rng, n):
     import itertools
     combos = list(itertools.product(["none", "inline", "shift"], ["none", "inline", "shiftlv"], ["none", "inline", "shift"],
                                     [False, True], [False, True], [False, True], [False, True]))
+    # ... x who declares a time zone / an efficiency (top group, member, both, nobody): drawn per project, all 16 kinds occur
+    extra = list(itertools.product([None, "Asia/Tokyo"], [None, "America/New_York"], ["1", "0.5"], ["1", "2"]))
     if n < len(combos):
         step = len(combos) / float(n)
         combos = [combos[int(k * step)] for k in range(n)]
@@ -1181,6 +1197,9 @@ def group_matrix(rng, n):
         sub = mk("sub", hs, top, 8 if ls else None)
         mem = mk("mem", hm, sub, 10 if lm else None)
         other = p.add_res("peer", parent=sub)            # inherits everything
+        tz_top, tz_mem, eff_top, eff_mem = extra[(i * 7 + i // 16) % len(extra)]
+        top.tz, mem.tz = tz_top, tz_mem
+        top.eff, mem.eff = Fraction(eff_top), Fraction(eff_mem)
         p.add_task("work", effort=3600 * 40, alloc=[mem])
         p.add_task("more", effort=3600 * 24, alloc=[other])
         out.append(("gmx%04d" % i, p))
